@@ -123,12 +123,14 @@ def hill_climb_mesh_extreme(
     # send the search around a tie of several vertices forever.)
     best_projection = search_direction.dot(
         np.ascontiguousarray(vertices[best_idx]))
+    # minimum gain of a step, in units of length along the search direction
+    min_gain = PROJECTION_LENGTH_EPSILON * np.linalg.norm(search_direction)
 
     if shortcut_connections is not None:
         for connected_idx in shortcut_connections:
             projection = search_direction.dot(
                 np.ascontiguousarray(vertices[connected_idx]))
-            if projection - best_projection > PROJECTION_LENGTH_EPSILON:
+            if projection - best_projection > min_gain:
                 best_idx = connected_idx
                 best_projection = projection
 
@@ -138,7 +140,7 @@ def hill_climb_mesh_extreme(
         for connected_idx in connections[best_idx]:
             projection = search_direction.dot(
                 np.ascontiguousarray(vertices[connected_idx]))
-            if projection - best_projection > PROJECTION_LENGTH_EPSILON:
+            if projection - best_projection > min_gain:
                 best_idx = connected_idx
                 best_projection = projection
                 converged = False
